@@ -1,6 +1,7 @@
 import Goirc.Model.Life
 import Goirc.Proofs.C07
 import Goirc.Proofs.C07Cancel
+import Goirc.Proofs.C07Live
 /-!
 # C07 — Disconnect always completes, leaks nothing, and the client can reconnect
 
@@ -98,6 +99,25 @@ theorem watchdog_is_needed :
     Reach stuck ∧ stuck.connected = true ∧ stuck.g.cancelled = true ∧
     ∀ l s', step stuck l = some s' → isOwn l = true → ∃ t, l = .watchFire t := by
   exact ⟨stuck_reach, by decide, by decide, stuck_only_watchdog⟩
+
+/-- `P` holds now, or some step of kind `k` is enabled and `P` is inevitable after every enabled step of kind `k`:
+"on every maximal run of `k`-steps, `P` comes to hold" (no fairness assumption; other kinds of steps quiet) -/
+abbrev Inevitable := @Proofs.C07Live.Inevitable
+
+open Proofs.C07Cancel in
+/-- **after a cancellation the teardown begins on every maximal run of the connection's own steps** - its goroutines,
+the watchdog, threads inside Connect / Close - whatever they do and in whatever order: `cancel_progress` says they
+cannot all be stuck before the test-and-clear, and they cannot go on for ever (a well-founded measure over queue
+contents, handler and ping fuel, program counters and the finitely many non-idle threads decreases) -/
+theorem cancel_inevitable {s : St} (h : Reach s) (hc : s.connected = true) (hx : s.g.cancelled = true) :
+    Inevitable isOwn (fun s => s.connected = false ∧ Draining s) s := by
+  exact Proofs.C07Live.cancel_inevitable h hc hx
+
+/-- **and a teardown that has begun is finished on every maximal run of teardown steps** (`teardown_progress` and
+`teardown_terminates` combined): the drainer gets to `xFinish`, after which nobody is draining -/
+theorem teardown_inevitable {s : St} (h : Reach s) (hd : Draining s) :
+    Inevitable isTeardown (fun s => ¬ Draining s) s := by
+  exact Proofs.C07Live.teardown_inevitable h hd
 
 /-- non-vacuity: `stuck` meets the hypotheses of `cancel_progress` and `cancel_reaches_teardown` -/
 example : ∃ s, Reach s ∧ s.connected = true ∧ s.g.cancelled = true :=
